@@ -232,6 +232,7 @@ class Ctx(object):
         ev.obs = self.obs_fields()
         ev.obs_names = self.obs_field_names()
         ev.error_has_source = self.error_has_source
+        ev.records = self.records()
         return ev
 
     def obs_fields(self):
@@ -405,6 +406,30 @@ class Ctx(object):
                         changed = True
         self._obs = obs
         return obs
+
+    def records(self):
+        """private structs the oracle vocabulary does not know: {path: [field names in declaration order]}. They are
+        read as tuples (a tuple turned into a small struct changes no term)."""
+        if getattr(self, '_records', None) is None:
+            if getattr(self, '_vocab_fields', None) is None:
+                self.vocab_fields('')
+            out = {}
+            for ap, a in self.adts.items():
+                if a.get('is_enum') or ap in self._vocab_fields or a.get('vis') == 'pub' or len(a.get('variants') or []) != 1:
+                    continue
+                fl = a['variants'][0]['fields']
+                if fl and not all(f['name'].isdigit() for f in fl) and (ap, fl[0]['name']) not in self.obs_fields():
+                    out[ap] = [f['name'] for f in fl]
+            self._records = out
+        return self._records
+
+    def expand_ty(self, ty):
+        """type string with record structs spelled as the tuples they stand for"""
+        for ap, names in self.records().items():
+            if ap in (ty or ''):
+                fl = self.adts[ap]['variants'][0]['fields']
+                ty = ty.replace(ap, '(%s)' % ', '.join(f['ty'] for f in fl))
+        return ty
 
     def error_has_source(self, variant_path):
         """errors::Error::X has a `source` field (so a context selector on a Result wraps the underlying error)"""
